@@ -193,9 +193,12 @@ def state(p, names, hs):
         buf, ln = d['data'], d['expected']
         blen = d['actual']
     else:
-        buf, ln = getattr(p, names[0]), getattr(p, names[1])
+        # private bookkeeping of the protocol object: when a rewrite keeps it
+        # elsewhere the observation says so (the correspondence then differs
+        # on the state, and the oracle decides on the delivered messages)
+        buf, ln = getattr(p, names[0], None), getattr(p, names[1], None)
         blen = None
-    o = {'buf': bytes(buf).hex(), 'len': ln}
+    o = {'buf': None if buf is None else bytes(buf).hex(), 'len': ln}
     if blen is not None and blen != 4:
         o['blen'] = blen
     if hs:
